@@ -14,6 +14,7 @@
    failing reader). *)
 From Coq Require Import String ZArith.
 From Verif Require Export Bytes Base64.
+From VerifGen Require Import Gen.
 Open Scope N_scope.
 
 (* ---- small byte-string helpers (Go stdlib pieces on the path) ---- *)
@@ -187,7 +188,9 @@ Section Scram.
     match sf_parse msg with
     | None => None
     | Some (combined, salt, it) =>
-        if is_nil (ss_nonce st) || negb (is_prefix (ss_nonce st) combined) then None
+        (* the rejection test is the source's condition (T1, Gen.scram_nonce_check):
+           len(a.nonce) == 0 || !bytes.HasPrefix(combinedNonce, a.nonce) *)
+        if Gen.scram_nonce_check (is_nil (ss_nonce st)) (is_prefix (ss_nonce st) combined) then None
         else match precis (sid_pass id) with
              | None => None
              | Some pw =>
